@@ -99,9 +99,9 @@ async def population(out, rng, seed, P, oport, closed, uport, n, truth, io_name,
                 c.close()
             elif kind == "ok-backpressure":
                 # megabytes towards a peer that is not reading yet: the proxy meets short writes; counters must still equal the payload
-                n_c2s = 3 << 20
+                n_c2s = 12 << 20
                 payload = keystream(seed, uid, "c2s", n_c2s)
-                c = await open_conn("127.0.0.1", P["http"] if rng.random() < 0.5 else P["rev"], rcvbuf=65536)
+                c = await open_conn("127.0.0.1", P["http"] if rng.random() < 0.5 else P["rev"], rcvbuf=16384)
                 lname = "http" if c.w.get_extra_info("peername")[1] == P["http"] else "rev"
                 if lname == "http":
                     st, _ = await http_connect(c, "127.0.0.1", oport)
@@ -112,7 +112,7 @@ async def population(out, rng, seed, P, oport, closed, uport, n, truth, io_name,
                 truth[rec["src"]] = rec
                 c.w.transport.pause_reading()      # the echo piles up, then the origin stops reading, then the proxy's buffers fill
                 c.write(payload)
-                await asyncio.sleep(0.6)
+                await asyncio.sleep(1.0)
                 c.w.transport.resume_reading()
                 await c.drain()
                 got = await c.read_exact(n_c2s, timeout=30)
